@@ -9,10 +9,14 @@ Tie between lean/TbbVerif/{Model,Props}/C05.lean and /repo's current tree:
           events; per-element counters and chunk logs are the implementation-side monitors
   E-REAL  real library, real threads: monitors; exact chunk multisets for simple/static, legal-split-tree test for
           auto/affinity; strided parallel_for, parallel_for_each (+feeder), parallel_invoke monitors
+  index form parallel_for(first, last, step, f …): checks/c05idx.py — the count expression / guards / body-wrapper index
+          arithmetic regenerated from parallel_for.h for every Index type (Generated/C05Stride.lean, theorems
+          strided_count_exact / strided_guards_exact / strided_index_exact) + the real overloads on boundary extents
 """
 import json
 import os
 
+import c05idx
 from common import (BuildError, REPO, ROOT, cxx_build, drv, ensure_repo_built, find_tbb_lib, first_diff, gen_write, log, sh)
 
 def run_limited(cmd, input=None, timeout=None, mem_kb=8000000):
@@ -43,6 +47,7 @@ def gen(ck):
     # inputs; the E-PURE correspondence then checks the model with this rule against the code on the whole input set)
     body += "".join("def %s : Bool := %s\n" % (k, "true" if c[k] == 1 else "false") for k in ("sel2Guarded", "sel3Guarded", "selNdGuarded"))
     gen_write("C05", body)
+    c05idx.gen_stride(ck)
     ob = lambda name, ok: ck.oblige("gen:" + name, "generated", ok, c)
     ob("one pool capacity for all partitioners and it is the array size", c["poolCapacity"] == c["poolCapacityAffinity"] == c["poolSlots"] and 1 <= c["poolCapacity"] < (1 << c["depthBits"]))
     ob("initial divisors are linear in max_concurrency", min(c["autoDivPerThread"], c["staticDivPerThread"], c["affinityDivPerThread"]) >= 1)
@@ -790,7 +795,9 @@ def run(ck):
                "arbitrary 63-bit proportions; 2d/3d/nd (1..5 dims) with small, equal-ratio and huge dimensions; random range_vector op sequences. "
                "E-MOCK: 600 (thorough 20000) scripted loops, sizes 1..5000, 1d/2d/3d/nd, 4 partitioners, max_concurrency 1..1000, steal probabilities "
                "0..100% at spawn / inside bodies / late, optional cancellation; every task replayed by the model. E-REAL: 64 (thorough 1500) real-thread "
-               "loops, concurrency 1..16, sizes up to 2^32+1000003. distinct = distinct (operation, flavour, outcome class) / (kind, flavour, #tasks, #chunks) classes")
+               "loops, concurrency 1..16, sizes up to 2^32+1000003. Index form: for each of 6 Index types ~3000 (first,last,step) triples at the edges of the type "
+               "(extent and step in {1,2,3,max/4,max/3,max/2,max-2..max, random}, first at min / last at max, step > extent, last-first+step-1 > max), 20 overloads, "
+               "non-positive steps, empty spaces, trip counts up to 2^26. distinct = distinct (operation, flavour, outcome class) / (kind, flavour, #tasks, #chunks) classes")
     ck.assumptions += [
         "modelled exactly: blocked_range<size_t> is_divisible/empty/size, midpoint split, float proportional split (binary32 RNE on rationals), the binary64 "
         "dimension choice of blocked_range2d/3d/nd, range_vector ring, adaptive/proportional/linear_affinity/dynamic_grainsize modes, the four partition types' "
@@ -802,12 +809,16 @@ def run(ck):
         "bare ratio comparison the theorem nd_split_never_cuts_indivisible does not compile and the probe yields the concrete failing input (key nd-split-binary64-tie)",
         "not modelled: which slot a task is mailed to (affinity replay quality), task allocation, the wait tree / reference counting that ends the loop (C01), "
         "exceptions; Value types other than size_t (signed int is covered by E-REAL monitors only); ranges whose proportional constructor is absent",
+        "index form: the theorems strided_* are about the expressions regenerated from parallel_for.h (g++/LP64 semantics: int 32, long 64, conversions modulo 2^n, "
+        "signed overflow modelled as wrap-around); hypotheses: first < last, step > 0 representable in Index and, for the SIGNED types, last - first <= max(Index) "
+        "(the code evaluates last - first in Index / int: beyond that the count is wrong on the unchanged tree, see evidence index_form_signed_extent_beyond_max); "
+        "the final `k += ms` after the last iteration of a chunk may wrap (value unused) and is not claimed",
         "parallel_for_each (iterator blocks, feeder) and parallel_invoke are covered by real-library monitors + spec-level theorems only, not by a code-level model",
         "termination of the model functions is by fuel; theorems are stated for every fuel that suffices; sufficiency (fuel = size+2) is proved for simple_partitioner on "
         "blocked_range, for the other partitioners it is observed on every replayed task (the driver uses fuel 10^8)",
         "the range_vector ring is tied to the code by its own E-PURE correspondence and to the list used by the task model by the refinement theorems rangevec_tiles/rangevec_refines"]
     ck.trusted += ["harness/c05/r1_mock.h (scripted mock of the r1 entry points; cross-checked by E-REAL monitors)", "harness/c05/{consts,pure,mock,real}.cpp",
-                   "lean/Driver/C05.lean (line protocol, legal-split-tree test)", "checks/c05.py (monitors, closure check)", "correspondence is sampled, not proved"]
+                   "lean/Driver/C05.lean (line protocol, legal-split-tree test)", "checks/c05.py (monitors, closure check)", "checks/c05idx.py (TrIdx: C++ index expressions -> Lean with promotions/conversions; shapes of parallel_for_impl and the body wrapper; monitors)", "harness/c05/idx.cpp", "correspondence is sampled, not proved"]
     gen(ck)
     lean_ok = ck.lean_stage()
     lean_broken = [o for o in ck.obligations if not o["ok"] and o["name"].startswith("lean:")]
@@ -818,14 +829,20 @@ def run(ck):
     run_rv(ck)
     fails += [("mock",) + f for f in run_mock(ck)]
     run_real(ck)
+    idx_exe, idx_bad, idx_cross = c05idx.run_idx(ck, real_libdir(ck))
     if [o for o in ck.broken() if not o.get("explained")]:
         search(ck, fails)
+        c05idx.search_idx(ck, idx_exe, idx_bad)
 
 
 def replay(ck, obj):
     r = obj["replay"]
     mon = r.get("monitor")
     name = os.path.basename(r["harness"])[:-4]
+    if name == "idx":
+        still = c05idx.replay_line(real_libdir(), r["stdin"])
+        print("property holds now" if not still else "STILL FAILS: %s" % still)
+        return 1 if still else 0
     if name == "real":
         libdir = real_libdir()
         exe = cxx_build("C05", "real", [H + "real.cpp"], flags=["-O1", "-g", "-pthread"], libs=["-L" + libdir, "-ltbb", "-Wl,-rpath," + libdir])
